@@ -9,6 +9,10 @@ class Ref:
     def __init__(self, grammar):
         self.rules = {r["name"]: r for r in grammar["rules"]}
         self.skipped = grammar["skipped"]
+        self.nf = {it["name"]: it for it in grammar.get("nf", [])}
+        self._first = {}
+        self.watch = None       # id of the repetition term whose iterations are recorded
+        self.trace = None       # [(skip spans or None, (start, end) or None)] of its last evaluation
 
     def flag(self, f, inh):
         return {"0": False, "1": True}.get(f, inh)
@@ -70,20 +74,10 @@ class Ref:
             return self.ev(n[1], s, p, stk, inh) or (p, stk)
         if k == "rep":
             sk, mn, mx, x = self.flag(n[1], inh), n[2], n[3], n[4]
-            cur = (p, stk)
-            cnt = 0
-            while mx is None or cnt < mx:
-                q = cur
-                if cnt > 0 and sk:
-                    q = self.skip(s, q[0], q[1])
-                r = self.ev(x, s, q[0], q[1], inh)
-                if r is None:
-                    break
-                if r == cur and mx is None:
-                    raise RuntimeError("non-progressing repetition")
-                cur = r
-                cnt += 1
-            return cur if cnt >= mn else None
+            cur, items = self.rep_run(1 if sk else 0, mx, x, s, p, stk, inh)
+            if self.watch == id(n):
+                self.trace = items
+            return cur if len(items) >= mn else None
         if k == "atomicrepeat":
             cur = (p, stk)
             while True:
@@ -140,9 +134,226 @@ class Ref:
             return None
         raise ValueError(k)
 
+    # ---- counted repetition: the iterations themselves (C19: element count, element spans, skipped blanks)
+
+    def has_span(self, x):
+        """whether the value of element term `x` carries a span of the text it matched (a rule struct that is not silent,
+        PEEK, PEEK_ALL, skip-until, skip-n); POP / POP_ALL carry the span of the popped entry: not known here"""
+        if x[0] == "ref":
+            return self.rules[x[1]]["emit"] in ("Span", "Both")
+        return x[0] in ("peek", "peekall", "skipuntil", "skipchars")
+
+    def skip_spans(self, s, p, stk):
+        """one run of the skip type: (pos, stack), spans of the skipped pieces (None when they carry none)"""
+        n = self.skipped
+        if n[0] != "atomicrepeat":
+            return self.skip(s, p, stk), None
+        cur, spans = (p, stk), []
+        while True:
+            r = self.ev(n[1], s, cur[0], cur[1], False)
+            if r is None or r == cur:
+                return cur, (spans if self.has_span(n[1]) else None)
+            spans.append((cur[0], r[0]))
+            cur = r
+
+    def rep_run(self, nskip, mx, x, s, p, stk, inh):
+        """greedy: iterations of `x`, before every iteration but the first `nskip` runs of the skip type; an iteration that does
+        not match gives back its skips and its stack effects; at most `mx` iterations.  Returns ((pos, stack), iterations)."""
+        cur = (p, stk)
+        items = []
+        while mx is None or len(items) < mx:
+            q = cur
+            spans = []
+            if items:
+                for _ in range(nskip):
+                    q, sp = self.skip_spans(s, q[0], q[1])
+                    spans = None if (sp is None or spans is None) else spans + sp
+            r = self.ev(x, s, q[0], q[1], inh)
+            if r is None:
+                break
+            if r == cur and mx is None:
+                raise RuntimeError("non-progressing repetition")
+            items.append((spans, (q[0], r[0]) if self.has_span(x) else None))
+            cur = r
+        return cur, items
+
+    def first_rep(self, n, seen=()):
+        """the first counted repetition of a term in pre-order, following rule references"""
+        k = n[0]
+        if k == "rep":
+            return n
+        if k == "ref":
+            if n[1] in seen or n[1] not in self.rules:
+                return None
+            return self.first_rep(self.rules[n[1]]["body"], seen + (n[1],))
+        kids = {"seq": lambda: n[2], "choice": lambda: n[1], "opt": lambda: [n[1]], "atomicrepeat": lambda: [n[1]],
+                "pos": lambda: [n[1]], "push": lambda: [n[1]], "array": lambda: [n[2]], "pair": lambda: [n[1], n[2]]}
+        for c in kids.get(k, lambda: [])():
+            r = self.first_rep(c, seen)
+            if r is not None:
+                return r
+        return None
+
+    @staticmethod
+    def _bytes(s, p):
+        return len(s[:p].encode("utf-8"))
+
+    def _items_bytes(self, s, items):
+        conv = lambda sp: None if sp is None else (self._bytes(s, sp[0]), self._bytes(s, sp[1]))
+        return [(None if sk is None else [conv(x) for x in sk], conv(el)) for sk, el in items]
+
+    def run_rule_items(self, name, s):
+        """as run_rule, plus the iterations of the first counted repetition of the rule (None if it has none):
+        [(spans of the blanks skipped before the element | None, span of the element | None)], byte offsets"""
+        if name not in self._first:
+            self._first[name] = self.first_rep(("ref", name, "1"))
+        tgt = self._first[name]
+        self.watch, self.trace = (id(tgt) if tgt is not None else None), None
+        r = self.ev(("ref", name, "1"), s, 0, (), True)
+        self.watch = None
+        if r is None:
+            return None
+        return self._bytes(s, r[0]), r[1], (None if tgt is None or self.trace is None else self._items_bytes(s, self.trace))
+
+    def run_nf(self, name, s):
+        """a direct call of the never-failing repetition item `name` after its prefix term: None when the prefix does not match,
+        else (byte offset after the prefix, byte end, stack texts, iterations)"""
+        it = self.nf[name]
+        r = self.ev(it["pre"], s, 0, (), True)
+        if r is None:
+            return None
+        cur, items = self.rep_run(it["k"], it["max"], it["elem"], s, r[0], r[1], False)
+        return self._bytes(s, r[0]), self._bytes(s, cur[0]), cur[1], self._items_bytes(s, items)
+
+    def run_rule_full(self, name, s):
+        """entry `rules::name::<'i, 1>::try_parse(s)` of a rule whose `$ignored` is a never-failing repetition: the rule, then
+        (unless the rule is atomic) that repetition, then end of input.  Returns the stack texts or None."""
+        rule = self.rules[name]
+        r = self.ev(("ref", name, "1"), s, 0, (), True)
+        if r is None:
+            return None
+        if rule["atom"] != "true":
+            ig = rule["ignored"]
+            r, _ = self.rep_run(ig["k"], ig["max"], ig["elem"], s, r[0], r[1], False)
+        return r[1] if r[0] == len(s) else None
+
     def run_rule(self, name, s):
         """entry as `rules::name::<'i, 1>::try_parse_partial(s)`: returns (byte end, stack texts) or None"""
         r = self.ev(("ref", name, "1"), s, 0, (), True)
         if r is None:
             return None
         return len(s[:r[0]].encode("utf-8")), r[1]
+
+
+# ---------------------------------------------------------------------------------------------------------------------
+# reading the `{:?}` text the runner prints: the element list of a counted repetition as the IMPLEMENTATION built it
+
+import re as _re
+
+_TOK = _re.compile(r'''"(?:[^"\\]|\\.)*"|'(?:[^'\\]|\\u\{[0-9a-fA-F]+\}|\\.)'|[A-Za-z_#][A-Za-z0-9_#]*|\d+|[{}()\[\],:]''')
+
+
+def parse_debug(text):
+    """Rust `{:?}` (not pretty) -> tree: ("struct", name, [(field, tree)]) | ("tuple", name, [tree]) | ("list", [tree]) | ("atom", text)"""
+    toks = _TOK.findall(text)
+    pos = 0
+
+    def seq(close):
+        nonlocal pos
+        out = []
+        while toks[pos] != close:
+            out.append(value())
+            if toks[pos] == ",":
+                pos += 1
+        pos += 1
+        return out
+
+    def value():
+        nonlocal pos
+        t = toks[pos]
+        pos += 1
+        if t == "[":
+            return ("list", seq("]"))
+        if t == "(":
+            return ("tuple", "", seq(")"))
+        if t[0].isalpha() or t[0] in "_#":
+            if pos < len(toks) and toks[pos] == "{":
+                pos += 1
+                fields = []
+                while toks[pos] != "}":
+                    f = toks[pos]
+                    pos += 2                      # field name, ':'
+                    fields.append((f, value()))
+                    if toks[pos] == ",":
+                        pos += 1
+                pos += 1
+                return ("struct", t, fields)
+            if pos < len(toks) and toks[pos] == "(":
+                pos += 1
+                return ("tuple", t, seq(")"))
+        return ("atom", t)
+
+    tree = value()
+    if pos != len(toks):
+        raise ValueError("trailing text in Debug output")
+    return tree
+
+
+def _kids(t):
+    if t[0] == "struct":
+        return [v for _, v in t[2]]
+    if t[0] == "tuple":
+        return t[2]
+    if t[0] == "list":
+        return t[1]
+    return []
+
+
+def _span_of(t):
+    if t[0] == "struct":
+        for f, v in t[2]:
+            if f == "span" and v[0] == "struct" and v[1] == "Span":
+                d = dict(v[2])
+                return int(d["start"][1]), int(d["end"][1])
+    return None
+
+
+def _outer_spans(t):
+    sp = _span_of(t)
+    if sp is not None:
+        return [sp]
+    return [x for c in _kids(t) for x in _outer_spans(c)]
+
+
+def _first_rep(t):
+    if t[0] == "struct" and t[1] in ("RepeatMin", "RepeatMinMax") and len(t[2]) == 1 and t[2][0][0] == "content" and t[2][0][1][0] == "list":
+        return t[2][0][1][1]
+    for c in _kids(t):
+        r = _first_rep(c)
+        if r is not None:
+            return r
+    return None
+
+
+def debug_rep_items(text):
+    """The first `RepeatMin` / `RepeatMinMax` of a `{:?}` text in pre-order: None, or its elements as
+    [(spans found in the `skipped` part, span of `matched` | None)] (`Skipped`'s Debug prints `matched` alone when SKIP = 0)."""
+    els = _first_rep(parse_debug(text))
+    if els is None:
+        return None
+    out = []
+    for e in els:
+        if e[0] == "struct" and e[1] == "Skipped" and [f for f, _ in e[2]] == ["skipped", "matched"]:
+            out.append(([x for c in _kids(e[2][0][1]) for x in _outer_spans(c)], _span_of(e[2][1][1])))
+        else:
+            out.append(([], _span_of(e)))
+    return out
+
+
+def render_rep_items(items):
+    """the canonical text of Driver/NF.lean `repObs`: {"n": .., "items": .., "skips": ..}"""
+    if items is None:
+        return {"n": "-"}
+    sp = lambda x: "?" if x is None else f"{x[0]}-{x[1]}"
+    return {"n": str(len(items)), "items": "[" + ",".join(sp(el) for _, el in items) + "]",
+            "skips": "[" + "|".join("+".join(sp(x) for x in sk) for sk, _ in items) + "]"}
